@@ -15,7 +15,9 @@ Well-formedness is explicit (`LineParts.WF`, `CondParts.WF` in Model/ParseLine.l
   contains no '#'; the comment does not start with white space.
 * condition = tag ++ ws ++ op ++ ws ++ value ++ (ws⁺ ++ unit)? ++ ws; tag and text values are trimmed and free
   of the operator characters `< > = !`; a value is a number (`[+-]?(\d+(\.\d*)?|\.\d+)([eE][+-]?\d+)?`) or a
-  text that does not start like a number; a unit follows a number only.
+  text that does not read as a number with an optional unit (`numberLike`): "Running", "Not Running", but
+  also "2 of 3", "0,98", "1st pass" — texts may begin with digits and contain spaces; a unit follows a number
+  only.
 
 `parseCond true` is the parser with fixes/C18-number-tail-as-unit.diff (the number is matched atomically);
 for the parser as it was the statement is false (`asis_*`).  Units that contain a character outside
@@ -129,6 +131,21 @@ example : (parseLine true [] sampleLine.render).cond =
 
 example : (parseLine true [] sampleLine.render).thr = "12.5".toList ∧
     (parseLine true [] sampleLine.render).comment = "note # 2".toList := by decide +kernel
+
+/-- text values that begin with a number are well-formed text values and are recovered whole -/
+example : (Value.text "2 of 3".toList).WF ∧ (Value.text "0,98".toList).WF ∧ (Value.text "1st pass".toList).WF ∧
+    (Value.text "Not Running".toList).WF := by
+  refine ⟨?_, ?_, ?_, ?_⟩ <;> exact ⟨by decide +kernel, by decide +kernel, by decide +kernel⟩
+
+example : parseCond true condOps "Foo == 2 of 3".toList =
+    ⟨"==".toList, "Foo".toList, "2 of 3".toList, some "Foo".toList, some "2 of 3".toList, none, false⟩ ∧
+    (parseCond true condOps "Foo > 0,98".toList).tagValue = some "0,98".toList ∧
+    (parseCond true condOps "Foo == 1st pass".toList).tagValue = some "1st pass".toList := by decide +kernel
+
+/-- a text that does not start with a sign, a digit or '.' is never number-like -/
+theorem text_value_by_first_char (t : List Char)
+    (h : ∀ c ∈ t.head?, (c ≠ '+' ∧ c ≠ '-' ∧ c ≠ '.' ∧ isDecimal c = false)) : numberLike t = false :=
+  numberLike_of_head h
 
 /-! Regression witnesses for the repair: the parser as it was gives the tail of a number to the unit. -/
 
